@@ -427,16 +427,16 @@ def diff_tree(a, b):
 
 
 def diff_lists(got, want):
+    """-> (fields that differ somewhere, {field: description of its first occurrence})"""
     if len(got) != len(want):
-        return ["tree-count"], "%d trees, reference has %d" % (len(got), len(want))
+        return ["tree-count"], {"tree-count": "%d trees, reference has %d" % (len(got), len(want))}
     fields = []
-    detail = ""
+    detail = {}
     for i, (g, w) in enumerate(zip(got, want)):
         for f in diff_tree(g, w):
             if f not in fields:
                 fields.append(f)
-                if not detail:
-                    detail = "tree %d: %s" % (i, describe(f, g, w))
+                detail[f] = "tree %d: %s" % (i, describe(f, g, w))
     return fields, detail
 
 
@@ -599,7 +599,7 @@ class Reporter(object):
                 continue
             if not prefix:
                 self.reported.add((family, f))
-            self.viol(family, prefix + f, detail if f in detail else "%s differs (%s)" % (f, detail), route)
+            self.viol(family, prefix + f, detail[f], route)
         return trees
 
 
@@ -688,7 +688,7 @@ def run_tree_case(case, ctx, tmp):
         b = [tree_snap(t) for t in conv_(oc_data[1])]
         fields, detail = diff_lists(a, b)
         for f in fields:
-            R.viol("source-dispatch:" + family, f, detail, route)
+            R.viol("source-dispatch:" + family, f, detail[f], route)
 
     for kind in ("file", "path"):
         same_as("TreeList", "TreeList.get(%s)" % kind, prim["TreeList"], attempt(lambda: TL.get(**env.src(kind), **env.K())), conv["TreeList"])
@@ -786,6 +786,7 @@ def run_tree_case(case, ctx, tmp):
                 R.viol(family, "shared-namespace:tree-not-in-given-namespace", "a delivered tree is not attached to the namespace that was passed", route)
             if [taxa_ids(t) for t in trees_] != exp_ids and len(trees_) == len(exp_ids):
                 now = [x._label for x in ns0._taxa]
+                R.reported.add((family, "shared-namespace:different-taxon-objects"))
                 R.viol(family, "shared-namespace:different-taxon-objects",
                        "trees read again into the namespace of the first read are attached to other Taxon objects than the first time "
                        "(namespace labels before %s, after %s)" % (labels0, now), route)
@@ -793,16 +794,6 @@ def run_tree_case(case, ctx, tmp):
         whole = lambda x: list(x)
         twice = lambda x: list(x) + list(x)
         shared("TreeList", "TreeList(taxon_namespace=ns).read(data)", lambda ns0: read_into(TL(taxon_namespace=ns0)), lambda v: list(v[0]._trees), whole)
-        if ref_name == "TreeList":
-            def again(ns0):
-                tl0 = st["obj"]
-                n0 = len(tl0._trees)
-                read_into(tl0)
-                if [tree_snap(t) for t in tl0._trees[:n0]] != want[:n0]:
-                    R.viol("TreeList", "read:earlier-trees-changed", "reading more trees into a list changed the trees already in it", "TreeList.read(data) second time")
-                return list(tl0._trees)[n0:]
-            shared("TreeList", "TreeList.get(data) then .read(data) into the same list", again, None, whole)
-            st["n"] = -1      # the reference list itself was extended: rebuild before the next check
         for bi, (lo, hi) in enumerate(sl):
             for tj in range(hi - lo):
                 shared("Tree.get", "Tree.get(data, taxon_namespace=ns, collection_offset=%d, tree_offset=%d)" % (bi, tj),
@@ -824,6 +815,23 @@ def run_tree_case(case, ctx, tmp):
 
     oc = attempt(lambda: _ds_read(DS(), env, "data"))
     R.compare("DataSet", "DataSet().read(data)", oc, want, ds_trees, prefix="read:")
+
+    # --- TreeList.get followed by an incremental read into the list it returned
+    if prim["TreeList"][0] == "ok":
+        first = attempt(lambda: TL.get(**env.src("data"), **env.K()))
+        if first[0] == "ok":
+            tlx = first[1]
+            n0 = len(tlx._trees)
+            ids_first = [taxa_ids(t) for t in tlx._trees]
+            oc = attempt(lambda: read_into(tlx, "file"))
+            route = "TreeList.get(data) then .read(file) into the same list"
+            more = R.compare("TreeList", route, oc, want, lambda v: list(v[0]._trees)[n0:], prefix="incremental:")
+            if more is not None:
+                if [tree_snap(t) for t in tlx._trees[:n0]] != want:
+                    R.viol("TreeList", "incremental:earlier-trees-changed", "reading more trees into a list changed the trees already in it", route)
+                if [taxa_ids(t) for t in more] != ids_first and len(more) == n0 and ("TreeList", "shared-namespace:different-taxon-objects") not in R.reported:
+                    R.viol("TreeList", "shared-namespace:different-taxon-objects",
+                           "the second read into the same list attaches its trees to other Taxon objects (namespace labels now %s)" % ([x._label for x in tlx.taxon_namespace._taxa],), route)
 
     # --- TreeArray
     run_tree_array(env, R, ctx, blocks, sl)
@@ -1026,6 +1034,11 @@ def run_char_case(case, ctx, tmp):
         got = matrix_snap(oc[1])
         for i, f in enumerate(MATRIX_FIELDS):
             if got[i] != exp[i]:
+                if (family, f) in R.reported:
+                    ctx.count("repeat_observations_of_a_reported_difference")
+                    continue
+                if not prefix:
+                    R.reported.add((family, f))
                 R.viol(family, prefix + f, "%s %r, matrix in the DataSet has %r" % (f, got[i], exp[i]), route)
         return oc[1]
 
